@@ -49,6 +49,7 @@ K2 == KeyOrder[2]
 L0 == LeafS("c0", 0, "<c0>")
 L1 == LeafS("c1", 1, "<c1>")
 LB == LeafS("kb", 2, K2)
+LU == LeafS("ku", 3, "<unprintable>")          \* an object whose str() raises (contains: "return False")
 LeavesQ == {L0, LB}
 LeavesT == {L0, L1, LB}
 DictsOver(V, KS) == {Dict(f) : f \in UNION {[S -> V] : S \in SUBSET KS}}
@@ -60,6 +61,8 @@ CtxT1 == DictsOver(LeavesT, K)
 CtxT2 == NarrowOver(LeavesT, CtxT1)
 CtxT3 == NarrowOver(LeavesQ, CtxQ2)            \* depth <= 3
 OneCtx == {Empty}
+CtxU == {Dict([j \in {K1} |-> LU]), Dict([j \in {K1} |-> Dict([i \in {K2} |-> LU])]),
+         Dict([j \in {K1, K2} |-> IF j = K1 THEN LU ELSE L0])}
 
 VARIABLES call,                \* the call: constructor / function arguments as the caller holds them
           elem,                \* the configuration stored in the element built from them
@@ -76,7 +79,8 @@ Init == /\ call \in Calls
         /\ elem = call
         /\ flow0 \in Flows /\ results = <<>>
         /\ ctx0 = flow0[1]
-        /\ ctx2 \in IF call.op = "tostr" THEN Ctxs ELSE {Empty}
+        /\ ctx2 \in IF call.op = "tostr" THEN {d \in Ctxs : \A k \in Keys(d) : ~IsD(d.m[k]) \/ Keys(d.m[k]) = {}}
+                    ELSE {Empty}
         /\ ctx = ctx0 /\ pc = "start" /\ out = Ok(NoVal) /\ ptr = <<>> /\ upd = NoVal
 
 Done == pc = "done"
@@ -116,7 +120,9 @@ CLast == /\ pc = "start" /\ call.op = "contains" /\ Len(ptr) + 1 = Len(call.path
 
 \* dictionary key notation: every level is inspected while the keys are collected
 GDNorm == /\ pc = "start" /\ call.op = "getd"
-          /\ IF call.lvl > 0 THEN Return(Raise("LenaValueError"))
+          /\ IF call.uk \in {"kt-tuple", "kt-list-nonstr", "kt-none", "kt-int"}
+               THEN Return(Raise("LenaTypeError"))        \* neither a string, nor a list of strings, nor a dictionary
+             ELSE IF call.lvl > 0 THEN Return(Raise("LenaValueError"))
              ELSE IF call.uk = "kd-nonstr"
                THEN \E r \in GetDOutcomes(call, ctx) : Return(r)
              ELSE Return(GetRefC(call, ctx))
@@ -271,7 +277,7 @@ FormatExact == Finished("format") /\ call.uk = "str" =>
   ELSE /\ out.ok /\ Len(out.r) = Len(call.tpl)
        /\ \A j \in DOMAIN call.tpl :
             IF call.tpl[j].t = "lit" THEN out.r[j] = LitTok(call.tpl[j].s)
-            ELSE out.r[j] = ValTok(GetRef(ctx0, call.tpl[j].p, FALSE).r)
+            ELSE out.r[j] = [ValTok(GetRef(ctx0, call.tpl[j].p, FALSE).r) EXCEPT !.s = call.tpl[j].cv]
 \* to_string is canonical
 CanonInjective == Finished("tostr") => (out.r = out.r2 <=> ctx0 = ctx2)
 \* the updating calls change exactly the addressed item
@@ -327,7 +333,10 @@ Paths(n) == Seqs(K, 0, n)
 PathsE(n) == Seqs(K \cup {""}, 0, n)                     \* with empty components
 TplToks == {Lit("_"), Fld(<<K1>>), Fld(<<K2>>), Fld(<<K1, K1>>), Fld(<<K1, K2>>)}
 Tpls(n) == Seqs(TplToks, 0, n)
-SimpleVals == {L1, Dict([j \in {K2} |-> L1])}
+\* format strings only: conversions and literals that look like format syntax
+ConvTpls == {<<FldC(<<K1>>, "r")>>, <<FldC(<<K1, K2>>, "s"), Lit(":")>>, <<Lit("!"), FldC(<<K2>>, "r"), Fld(<<K1>>)>>,
+             <<Lit(":"), Fld(<<K1>>)>>}
+SimpleVals == {L1, Dict([j \in {K2} |-> L1]), Empty}
 OptsAll == [value : BOOLEAN, def : BOOLEAN, skip : BOOLEAN, raise : BOOLEAN, rec : BOOLEAN, dv : {"obj"}]
 \* the same with a default of another value (only where a default is given)
 DVsQuick == {"none", "zero", "edict"}
@@ -336,7 +345,7 @@ OptsDV(dvs) == {o \in [value : BOOLEAN, def : {TRUE}, skip : BOOLEAN, raise : BO
 QueryCalls(np, nt) ==
        {Call("get", p, d, <<>>, "none", Empty, NoOpts) : p \in Paths(np), d \in BOOLEAN}
   \cup {Simple("contains", p) : p \in Paths(np) \ {<<>>}}
-  \cup {Call("format", <<>>, FALSE, t, "str", Empty, NoOpts) : t \in Tpls(nt)}
+  \cup {Call("format", <<>>, FALSE, t, "str", Empty, NoOpts) : t \in Tpls(nt) \cup ConvTpls}
   \cup {Call("format", <<>>, FALSE, <<>>, uk, Empty, NoOpts) : uk \in {"bad", "simple"}}
   \cup {Simple("tostr", <<>>)}
 UpdTpls == {<<Fld(<<K1>>)>>, <<Fld(<<K1, K2>>)>>, <<Fld(<<K2>>)>>,
@@ -359,47 +368,55 @@ KeyDictCalls(paths, dvs) ==
      /\ c.lvl <= (IF c.uk = "kd-str" THEN Len(c.path) - 1 ELSE Len(c.path))
      /\ c.uk = "kd-str" => Len(c.path) >= 2
      /\ c.dflt \/ c.o.dv = "obj"}
+\* key arguments of get_recursively that are of a wrong type
+KeyTypeCalls(paths) ==
+  {[KeyDictCall(p, d, "obj", uk, 0) EXCEPT !.op = "getd"] : p \in paths, d \in BOOLEAN,
+                                                             uk \in {"kt-tuple", "kt-list-nonstr", "kt-none", "kt-int"}}
 \* the constructor over the whole option matrix (the context does not matter)
 MakeCalls ==
        {Call("update", p, FALSE, t, "str", Empty, o) :
-          p \in {<<>>, <<K1>>}, t \in {<<Fld(<<K1>>)>>, <<Lit("_"), Fld(<<K1>>)>>, <<Lit("_")>>, <<>>},
+          p \in {<<>>, <<K1>>}, t \in {<<Fld(<<K1>>)>>, <<Lit("_"), Fld(<<K1>>)>>, <<Fld(<<K1>>), Lit("_")>>,
+                                        <<Lit("_")>>, <<>>},
           o \in OptsAll}
+  \cup KeyTypeCalls(Seqs(K, 0, 2))
   \cup {Call("update", <<K1>>, FALSE, <<>>, uk, L1, o) : uk \in {"simple", "bad"}, o \in OptsAll}
   \* a default of every value in every (also malformed) configuration
   \cup {Call("update", <<K1>>, FALSE, t, uk, L1, o) : t \in {<<Fld(<<K1>>)>>, <<Lit("_")>>}, uk \in {"str", "simple"},
                                                           o \in OptsDV(DVsAll)}
   \cup KeyDictCalls(Seqs(K, 1, 3), {"obj", "none"})
   \* str_to_dict / str_to_list do not depend on a context either
-  \cup {Simple("s2d", p) : p \in Paths(4)}
+  \cup {Simple("s2d", p) : p \in Paths(4) \cup {<<K1, "", K2>>, <<"", K1>>, <<K1, "">>}}
 DeleteCalls(paths) == {Simple("delete", p) : p \in paths}
 FuwCalls(paths) ==
        {Call("fuw", p, FALSE, <<>>, "simple", v, NoOpts) : p \in paths, v \in SimpleVals}
   \cup {Call("fuw", p, FALSE, t, "str", Empty, NoOpts) : p \in paths,
           t \in {<<Fld(<<K1>>)>>, <<Lit("_"), Fld(<<K1, K2>>)>>, <<Lit("_")>>}}
+  \cup {Call("fuw", p, FALSE, <<FldC(<<K1>>, "r"), Lit(":")>>, "str", Empty, NoOpts) : p \in paths \cap {<<K1>>, <<K1, K2>>}}
   \cup {Call("fuw", <<K1>>, FALSE, <<>>, "bad", Empty, NoOpts)}
 
 KO2 == <<"a", "b">>
 KO3 == <<"a", "b", "c">>
-CallsQuick == DefaultCalls({<<K1>>, <<K1, K2>>}, DVsQuick)
+CallsQuick == TLCEval( DefaultCalls({<<K1>>, <<K1, K2>>}, DVsQuick)
               \cup KeyDictCalls({<<K1>>, <<K1, K2>>, <<K1, K1, K2>>}, {"obj"})
-              \cup QueryCalls(3, 2) \cup UpdateCalls(Seqs(K, 1, 2) \cup {<<K1, "", K2>>, <<K1, K2, K1>>})
+              \cup QueryCalls(3, 2)
+              \cup UpdateCalls({<<K1>>, <<K2>>, <<K1, K1>>, <<K1, K2>>, <<K1, "", K2>>, <<K1, K2, K1>>})
               \cup DeleteCalls(PathsE(2) \cup Seqs(K, 3, 3))
-              \cup FuwCalls(Seqs(K, 0, 2) \cup {<<K1, K2, K1>>})
-CallsThorough == DefaultCalls(Seqs(K, 1, 2), DVsAll)
+              \cup FuwCalls(Seqs(K, 0, 2) \cup {<<K1, K2, K1>>}))   \* evaluated once, not lazily at every use
+CallsThorough == TLCEval( DefaultCalls(Seqs(K, 1, 2), DVsAll)
                  \cup KeyDictCalls(Seqs(K, 1, 3), {"obj", "none"})
                  \cup QueryCalls(4, 3) \cup UpdateCalls(Seqs(K, 1, 3) \cup {<<K1, "", K2>>, <<"", K1>>})
                  \cup DeleteCalls(PathsE(3) \cup Seqs(K, 4, 4))
-                 \cup FuwCalls(Seqs(K, 0, 3) \cup {<<K1, "", K2>>})
+                 \cup FuwCalls(Seqs(K, 0, 3) \cup {<<K1, "", K2>>}))   \* evaluated once, not lazily at every use
 
 \* depth-3 contexts: everything but the to_string pairs and the long template lists
-CallsDeep == {c \in CallsQuick : c.op # "tostr" /\ (c.op = "format" => Len(c.tpl) <= 1)}
+CallsDeep == TLCEval( {c \in CallsQuick : c.op # "tostr" /\ (c.op = "format" => Len(c.tpl) <= 1)}
              \cup {Simple("contains", p) : p \in Seqs(K, 4, 4)}
              \cup {Call("get", p, FALSE, <<>>, "none", Empty, NoOpts) : p \in Seqs(K, 4, 4)}
-             \cup DeleteCalls(Seqs(K, 4, 4)) \cup UpdateCalls({<<K1, K1, K1>>, <<K1, K1, K2>>, <<K1, K1, K1, K2>>})
+             \cup DeleteCalls(Seqs(K, 4, 4)) \cup UpdateCalls({<<K1, K1, K1>>, <<K1, K1, K2>>, <<K1, K1, K1, K2>>}))   \* evaluated once, not lazily at every use
 
 \* three keys (design level only)
-CallsWide == {c \in QueryCalls(3, 1) : c.op # "tostr"} \cup DeleteCalls(Seqs(K, 1, 3))
-             \cup UpdateCalls(Seqs(K, 1, 2)) \cup FuwCalls(Seqs(K, 1, 2))
+CallsWide == TLCEval( {c \in QueryCalls(3, 1) : c.op # "tostr"} \cup DeleteCalls(Seqs(K, 1, 3))
+             \cup UpdateCalls(Seqs(K, 1, 2)) \cup FuwCalls(Seqs(K, 1, 2)))   \* evaluated once, not lazily at every use
 
 \* flows: an element over three values, equal and different ones
 FlowCtxs == {Empty, Dict([j \in {K1} |-> L0]), Dict([j \in {K1} |-> Dict([i \in {K2} |-> L0])]),
@@ -407,13 +424,16 @@ FlowCtxs == {Empty, Dict([j \in {K1} |-> L0]), Dict([j \in {K1} |-> Dict([i \in 
              Dict([j \in {K1, K2} |-> IF j = K1 THEN LB ELSE Empty])}
 FlowsXYX == {<<x, y, x>> : x \in Ctxs, y \in Ctxs}
 FlowsAll3 == Ctxs \X Ctxs \X Ctxs
-CallsFlowQuick == UpdateCalls({<<K1>>, <<K1, K2>>, <<K2, K1>>})
+CallsFlowQuick == TLCEval( UpdateCalls({<<K1>>, <<K1, K2>>, <<K2, K1>>})
                   \cup DeleteCalls(PathsE(2) \cup {<<K1, K1, K2>>, <<K1, K2, K1>>})
                   \cup FuwCalls({<<>>, <<K1>>, <<K1, K2>>})
-                  \cup {Call("format", <<>>, FALSE, t, "str", Empty, NoOpts) : t \in Tpls(2)}
-CallsFlowThorough == UpdateCalls(Seqs(K, 1, 2) \cup {<<K1, K2, K1>>})
+                  \cup {Call("format", <<>>, FALSE, t, "str", Empty, NoOpts) : t \in Tpls(2)})   \* evaluated once, not lazily at every use
+CallsFlowThorough == TLCEval( UpdateCalls(Seqs(K, 1, 2) \cup {<<K1, K2, K1>>})
                      \cup DeleteCalls(PathsE(2) \cup Seqs(K, 3, 3)) \cup FuwCalls(Seqs(K, 0, 2))
-                     \cup {Call("format", <<>>, FALSE, t, "str", Empty, NoOpts) : t \in Tpls(3)}
+                     \cup {Call("format", <<>>, FALSE, t, "str", Empty, NoOpts) : t \in Tpls(2) \cup ConvTpls
+                             \cup {<<Fld(<<K1>>), Lit("_"), Fld(<<K1, K2>>)>>, <<Fld(<<K2>>), Fld(<<K1>>), Fld(<<K1>>)>>}})   \* evaluated once, not lazily at every use
+
+CallsUnprintable == {Simple("contains", p) : p \in Paths(3) \ {<<>>}}
 
 (***************************************************************************)
 (* Export (S2C): the call, the context, the outcome; rend = the tokens of  *)
